@@ -24,6 +24,7 @@ def sh(cmd, **kw):
 
 def main():
     args = [a for a in sys.argv[1:] if not a.startswith("--")]
+    print("NOTE: --scratch runs against a private copy of /repo" if "--scratch" in sys.argv else "running against /repo itself")
     tier = "quick"
     only_props = None
     for i, a in enumerate(sys.argv):
@@ -33,6 +34,12 @@ def main():
         if a == "--props":
             only_props = sys.argv[i + 1].split(",")
             args = [x for x in args if x != sys.argv[i + 1]]
+    global REPO
+    scratch = "--scratch" in sys.argv
+    if scratch:
+        # while other work is using /repo: run against a private copy (VERIF_REPO)
+        REPO = "/tmp/seedrun-repo"
+        sh(f"rm -rf {REPO}; cp -r /repo {REPO}; git -C {REPO} checkout -- .")
     sdir = os.path.join(HERE, "seeded")
     ids = args or sorted(d for d in os.listdir(sdir) if os.path.isdir(os.path.join(sdir, d)))
     assert sh(f"git -C {REPO} status --porcelain").stdout.strip() == "", "/repo has uncommitted changes"
@@ -54,6 +61,8 @@ def main():
             for p in props:
                 t0 = time.time()
                 env = dict(os.environ, VERIF_SEED=os.environ.get("VERIF_SEED", "0"))
+                if scratch:
+                    env["VERIF_REPO"] = REPO
                 c = subprocess.run([os.path.join(HERE, "check"), p, "--tier", tier], capture_output=True, text=True, env=env)
                 viol = [ln for ln in c.stdout.splitlines() if ln.startswith("VIOLATION")]
                 sigs = [ln.strip()[len("signature: "):] for ln in c.stdout.splitlines() if ln.strip().startswith("signature:")]
@@ -66,6 +75,8 @@ def main():
             sh(f"git -C {REPO} checkout -- .")
             assert sh(f"git -C {REPO} status --porcelain").stdout.strip() == ""
         json.dump(results, open(res_path, "w"), indent=1, sort_keys=True)
+    if scratch:
+        sh(f"rm -rf {REPO}")
     det = sum(1 for v in results.values() if v.get("detected"))
     print(f"detected {det} / {len(results)}")
 
